@@ -447,6 +447,31 @@ func runC04(p *Prog, r *Report, tier string) {
 		} else {
 			r.fail("G-mpt", "G-mpt/ReceiveMessage/module-branch-mints", c.pos(), "module branch not found")
 		}
+		// … and conversely: a receive that succeeds without minting was not addressed to the module
+		// (a weakened branch condition — `domain != 9 && Equal(...)` — would let module-addressed
+		// burn messages succeed, consume their nonce and mint nothing)
+		{
+			notMod := []Atom{A("!bytes.Equal(M.Recipient,types.PaddedModuleAddress)")}
+			edges, matched := passEdges(c.ifs, notMod)
+			anchor := c.siteInFn(mint)
+			mb := anchor.Block()
+			for slot := range mb.Succs {
+				edges[Edge{mb, slot, nil}] = true // leaving the mint's block: the mint was executed
+			}
+			leakAt := ""
+			if len(matched) > 0 {
+				reach := reachFrom([]*ssa.BasicBlock{c.fn.Blocks[0]}, edges)
+				for _, s := range c.successReturns() {
+					sb := c.siteInFn(s).Block()
+					if reach[sb] && sb != mb {
+						leakAt = p.instrPos(s)
+					}
+				}
+			}
+			r.check(len(matched) > 0 && leakAt == "", "G-cut", "G-cut/ReceiveMessage/no-mint-only-for-other-recipients", p.instrPos(mint),
+				"every success path that does not execute the Mint lies behind recipient != module address",
+				"a success return at "+leakAt+" is reachable without the Mint and without the recipient having tested different from the module address: a message addressed to the module can be accepted without minting")
+		}
 		req := c.argTerms(mint)[1]
 		// compare field by field (abbreviations for sub-terms, not for the request itself)
 		sub := *c
